@@ -9,13 +9,20 @@
 //	flex/mix           FlexSlice vs. plain-slice model, random grow/shrink phases
 //	flex/threshold     scripted walk across every shrink threshold with Prepend bursts on the capacity boundaries
 //	flex/selfarg       Append/Prepend whose argument is a sub-slice of the FlexSlice's own Values
+//	flex/sparearg      Append/Prepend whose argument lies in the spare capacity behind len(Values)
+//	flex/window        windows of 2..12 mutators without any observing call, first observer varied, re-initialisation through the exported field, SubSlice with MinInt/MaxInt
+//	flex/big           capacities on both sides of 2^12..2^17: Prepend/Append on the room / quarter / doubling boundaries, removals across the shrink threshold
+//	setops/float       float64 and {float64,int} elements with NaN, 0 and -0, float keys; s2 the same memory as s1
+//	setops/big         15..70001 elements on both sides of the powers of two, s2 tiny or far longer than s1 (table-indexed references)
+//	setops/keep        serial: the same s1/s2/dst buffers call after call with contents rewritten in place; inputs unchanged when dst is separate memory; results in own memory stay as returned
+//	big/bounds         SubSlice/Copy/Remove/Index/Equal/Chunk/ChunkProcess/Values on 15..70001 elements
 package main
 
 import "verif/ev"
 
 func main() {
 	r := ev.New("C14")
-	r.Rule("setops/rand: one case = 10 inputs, setops/small-*: one case = 1 input; an input = (s1, s2) over an alphabet of 1..9 values (int, string or {key,id} pair elements; nil, empty, duplicates), an input aliasing mode (independent, s2==s1, s2=s1[a:b], s1=s2[a:b]), a key function and a predicate; all 5 functions with several dst layouts (nil, empty, spare/short capacity, non-empty garbage, s1[:0], s1[:k], s1[:0:0], s2[:0]) and the 5 in-place variants run on it; distinct = hash of (element type, contents, aliasing, key, predicate) of all inputs of the case, non-trivial = s1 has 2+ elements or s2 is non-empty. bounds: one case = one slice (nil/empty/1..33 elements, spare capacity holding poison) with every start/end/length/index in -3..len+3 plus MinInt/MaxInt and every chunk size in -2..len+3; distinct = hash of contents and layout. flex: one case = an operation sequence on a FlexSlice (zero value or caller-built Values with spare capacity) with the whole sequence compared after every operation; distinct = hash of the operation sequence.")
+	r.Rule("setops/rand: one case = 10 inputs, setops/small-*: one case = 1 input; an input = (s1, s2) over an alphabet of 1..9 values (int, string or {key,id} pair elements; nil, empty, duplicates), an input aliasing mode (independent, s2==s1, s2=s1[a:b], s1=s2[a:b]), a key function and a predicate; all 5 functions with several dst layouts (nil, empty, spare/short capacity, non-empty garbage, s1[:0], s1[:k], s1[:0:0], s2[:0]) and the 5 in-place variants run on it; distinct = hash of (element type, contents, aliasing, key, predicate) of all inputs of the case, non-trivial = s1 has 2+ elements or s2 is non-empty. bounds: one case = one slice (nil/empty/1..33 elements, spare capacity holding poison) with every start/end/length/index in -3..len+3 plus MinInt/MaxInt and every chunk size in -2..len+3; distinct = hash of contents and layout. flex: one case = an operation sequence on a FlexSlice (zero value or caller-built Values with spare capacity) with the whole sequence compared after every operation; distinct = hash of the operation sequence. setops/float: one case = 6 inputs over {NaN, 0, -0, 1, 2, +Inf, -1} (plain floats or {K float64, ID} structs), aliasing independent / s2==s1 / s2=s1[a:b], dst nil / fresh / s1[:0] / s2[:0]; distinct = hash of contents and aliasing. setops/big and big/bounds: one case = one input of 15..70001 ints; distinct = hash of lengths, alphabet, aliasing and the first 64 elements. setops/keep: one case = 6..14 calls on the same three buffers; distinct = hash of (buffer edit, function, dst layout, contents) per step. flex/window, flex/big, flex/sparearg: as flex (hash of the operation sequence / of the arena layout).")
 	r.Assume("the references (nested loops, written from the doc comments) are the definitions: Diff/Intersect/Filter keep the elements of s1 that are absent from / present in s2 / satisfy the predicate, Unique/UniqueByKey keep the first occurrence per value / key")
 	r.Assume("results are compared by content: nil and empty are the same observation; capacities are read for coverage counters only")
 	r.Assume("dst aliasing is exercised as the prefix [:0] (or [:k], [:0:0]) of an input; when s2 is itself a sub-slice of s1 starting behind s1[0], dst = s2[:0] is not used (a destination in the middle of the slice being read is not covered by the statement)")
@@ -23,6 +30,11 @@ func main() {
 	r.Assume("SubSlice/Copy clamping as documented: negative start counts as 0, negative or oversized end/length means 'to the end', an empty window is an empty result; for out-of-range Get/Remove/Pop/Shift only ok=false and an unchanged sequence are demanded")
 
 	r.Assume("flex/selfarg: the value of a variadic argument is its content at the time of the call, also when the caller passes a sub-slice of the exported f.Values (as append and slices.Insert guarantee)")
+
+	r.Assume("float elements: selection is by == (a NaN equals nothing, not even itself, so it is never 'present in s2' and never a repeated value or key; 0 == -0), which is also what a map keyed by the element gives; the selected elements are compared bit by bit")
+	r.Assume("flex/sparearg: as flex/selfarg, for an argument that is a part of the caller-built array behind len(f.Values) but inside cap(f.Values) (append(s, s[:cap(s)][x:y]...) gives the same)")
+	r.Assume("flex/window: assigning to the exported field Values (f.Values = f.Values[:k], = nil, = a new slice) starts a new sequence with that content")
+	r.Assume("setops/keep: when dst is memory separate from s1 and s2 the dst-taking functions leave s1 and s2 as they were (only the InPlace variants are documented to reorder s1); s2 is never written by an InPlace variant when it is separate from s1; a result returned in memory of its own (dst nil or new) is not changed by later calls whose arguments are other memory")
 
 	r.Cases("setops/rand", r.N(60000, 3000000), ev.Opt{HangViolation: true}, randSetCase)
 	small := smallScope{sym: 3, len1: 5, len2: 3}
@@ -36,6 +48,13 @@ func main() {
 	r.Cases("flex/threshold", r.N(40000, 800000), ev.Opt{HangViolation: true}, flexThresholdCase)
 	r.Cases("flex/selfarg", r.N(10000, 200000), ev.Opt{HangViolation: true}, flexSelfArgCase)
 	r.Cases("equal-nan", r.N(5000, 100000), ev.Opt{HangViolation: true}, equalNaNCase)
+	r.Cases("flex/sparearg", r.N(10000, 200000), ev.Opt{HangViolation: true}, flexSpareArgCase)
+	r.Cases("flex/window", r.N(30000, 600000), ev.Opt{HangViolation: true}, flexWindowCase)
+	r.Cases("flex/big", r.N(160, 3200), ev.Opt{HangViolation: true}, flexBigCase)
+	r.Cases("setops/float", r.N(20000, 400000), ev.Opt{HangViolation: true}, floatSetCase)
+	r.Cases("setops/big", r.N(400, 8000), ev.Opt{HangViolation: true}, bigSetCase)
+	r.Cases("big/bounds", r.N(300, 6000), ev.Opt{HangViolation: true}, boundsBigCase)
+	r.Cases("setops/keep", r.N(20000, 300000), ev.Opt{HangViolation: true, Serial: true}, keepCase)
 	r.Require("equal_nan_cases", 1000)
 	r.Require("flex_selfarg_capacity_limited_arg", 500)
 
@@ -72,5 +91,47 @@ func main() {
 	r.Require("flex_subslice_adopted", 1000)
 	r.Require("flex_selfarg_prepend", 2000)
 	r.Require("flex_selfarg_prepend_within_capacity_offset_arg", 1000)
+
+	// situations added by the strengthening round (LESSONS classes 1, 2, 3, 4, 6, 7, 8, 11, 12)
+	r.Require("flex_windows", 50000)
+	r.Require("flex_window_ops_unobserved", 200000)
+	r.Require("flex_windows_with_removals", 20000)
+	r.Require("flex_window_insert_right_after_removal", 10000)
+	for _, o := range flexObservers {
+		r.Require("flex_window_first_observer/"+o, 5000)
+	}
+	r.Require("flex_reinit_cut_to_empty_keeping_capacity", 1000)
+	r.Require("flex_reinit_new_values", 1000)
+	r.Require("flex_subslice_extreme_args", 2000)
+	r.Require("flex_subslice_minint_start_nonempty_window", 200)
+	r.Require("flex_big_cases", 100)
+	r.Require("flex_big_prepend_doubling_cap_ge_65536", 10)
+	r.Require("flex_big_prepend_doubling_more_than_a_quarter", 5)
+	r.Require("flex_big_prepend_in_place_shift_ge_4096", 10)
+	r.Require("flex_big_shrinks_cap_ge_4096", 10)
+	r.Require("flex_sparearg_prepend_within_capacity", 2000)
+	r.Require("flex_sparearg_prepend_shift_runs_into_argument", 1000)
+	r.Require("float_inputs", 50000)
+	r.Require("float_s1_with_nan", 10000)
+	r.Require("float_same_memory_with_nan", 3000)
+	r.Require("float_s1_with_both_zeros", 3000)
+	r.Require("float_nan_keys", 3000)
+	r.Require("setops_big_inputs", 200)
+	r.Require("setops_big_s1_ge_4096", 30)
+	r.Require("setops_big_s1_ge_65536", 5)
+	r.Require("setops_big_s2_ge_4096_longer_than_s1", 20)
+	r.Require("setops_big_s2_ge_65536", 5)
+	r.Require("setops_big_s1_tiny_s2", 3)
+	r.Require("bounds_big_cases", 150)
+	r.Require("bounds_big_len_ge_4096", 30)
+	r.Require("bounds_big_equal_difference_in_last_3", 300)
+	r.Require("bounds_big_chunk_ge_128_pieces", 100)
+	r.Require("keep_calls", 100000)
+	r.Require("keep_inputs_checked_unmodified", 30000)
+	r.Require("keep_inputs_unmodified_result_not_a_prefix", 3000)
+	r.Require("keep_kept_results_rechecked", 10000)
+	r.Require("keep_same_call_again_only_s2_content_changed", 3000)
+	r.Require("keep_same_call_again_only_s1_content_changed", 3000)
+	r.Require("keep_same_call_again_nothing_changed", 1000)
 	r.Finish()
 }
